@@ -209,7 +209,9 @@ int main(int argc, char **argv) {
         else if (ln[0] == 'H') hashes.insert(ln.substr(2)); else if (ln[0] == 'X') { if (samples.size() < 4) samples.push_back(ln.substr(2)); }
         else if (ln[0] == 'V') { std::vector<std::string> parts; size_t pos = 2; while (true) { size_t t = ln.find('\t', pos); if (t == std::string::npos) { parts.push_back(ln.substr(pos)); break; } parts.push_back(ln.substr(pos, t - pos)); pos = t + 1; } if (parts.size() >= 4) raws.push_back({strtoull(parts[0].c_str(), 0, 10), parts[1], parts[2], parts[3]}); }
     }
-    for (auto &d : pr.deaths) { if (WIFEXITED(d.second) && WEXITSTATUS(d.second) == 2) return 2; raws.push_back({d.first, "worker-death", "worker-death", strf("worker died with status 0x%x", d.second)}); }
+    for (auto &d : pr.deaths) { if (WIFEXITED(d.second) && WEXITSTATUS(d.second) == 2) return 2;
+        // SIGKILL is nothing library code can raise: the kernel's OOM killer took the worker (multi-GiB buffers) - a harness error, never a verdict
+        if (WIFSIGNALED(d.second) && WTERMSIG(d.second) == SIGKILL) { fprintf(stderr, "hugesim: worker killed in run %llu (out of memory?)\n", (unsigned long long)d.first); return 2; } raws.push_back({d.first, "worker-death", "worker-death", strf("worker died with status 0x%x", d.second)}); }
     std::sort(raws.begin(), raws.end(), [](const RawV &a, const RawV &b) { return a.run < b.run; });
     std::map<std::string, uint64_t> sigc; for (auto &r : raws) ++sigc[r.sig];
     std::string vj; std::set<std::string> seen; int nfinal = 0, nondet = 0;
